@@ -3,6 +3,7 @@ import re
 from lib import cfg
 from rules import common
 
+CRATES = ("agdb",)
 EXPLANATION = (
     "Static analysis: (R16a) SearchQuery::slice contains no panic-capable range operation (range index, drain, split_at, "
     "split_off) whose bound does not derive from a clamp against the result length (cmp::min / saturating_* / len), and no "
